@@ -381,12 +381,21 @@ def perform(op, R: Live):
             if fs["rank"] != 0:
                 return SKIP
             f = R.field(op["f"])
-            bcs = f.grid.get_boundary_conditions(build_bc({"value": 0.0}, h["grids"][fs["grid"]]), rank=0)
-            side = next((sd for ax in range(f.grid.num_axes) for sd in (bcs[ax].low, bcs[ax].high) if isinstance(sd, ConstBCBase)
-                         and type(sd).__name__ == "DirichletBC"), None)
-            if side is None:
-                return SKIP
-            side.link_value(R.linked_array(op["slot"], tuple(side._shape_tensor) + tuple(side._shape_boundary)))
+            # the history process keeps ONE conditions object per (slot, grid) and uses it again and again, as a user who
+            # updates the linked array between evaluations would; the reference builds its conditions anew
+            store = getattr(R, "linked_bcs", None)
+            if store is None:
+                store = R.linked_bcs = {}
+            bkey = (int(op["slot"]), fs["grid"])
+            bcs = None if getattr(R, "fresh", False) or not op.get("keep", True) else store.get(bkey)
+            if bcs is None:
+                bcs = f.grid.get_boundary_conditions(build_bc({"value": 0.0}, h["grids"][fs["grid"]]), rank=0)
+                side = next((sd for ax in range(f.grid.num_axes) for sd in (bcs[ax].low, bcs[ax].high) if isinstance(sd, ConstBCBase)
+                             and type(sd).__name__ == "DirichletBC"), None)
+                if side is None:
+                    return SKIP
+                side.link_value(R.linked_array(op["slot"], tuple(side._shape_tensor) + tuple(side._shape_boundary)))
+                store[bkey] = bcs
             if op["via"] == "ghost":
                 g = f.copy()
                 g._data_full[...] = 0  # (corner cells are never set by boundary conditions: not uninitialised memory, please)
